@@ -152,7 +152,7 @@ theorem Steps.det {picks : List Nat} {s s1 s2 : Sess} (h1 : Steps F P g cfg s pi
 theorem setupImpl_persist_cases (P : Project) (g : G) (cfg : Cfg) (s : Sess) (t : TaskSpec) :
     setupImpl P g cfg s t "persist" = .persisted ∨ setupImpl P g cfg s t "persist" = .none := by
   have e : setupImpl P g cfg s t "persist" =
-      if t.persist then
+      if (t.persist && !s.wbeMarks.contains t.id) then
         (if ((neighbours g t.id).map (stateOf P s.w)).all (·.isSome) then
           (if ((neighbours g t.id).zip ((neighbours g t.id).map (stateOf P s.w))).any
                 (fun (v, st) => hasChanged s.w t.id v st) then .persisted else .none)
@@ -268,6 +268,82 @@ theorem build_at {w : World} {picks : List Nat} {r : Result} {marks : List Nat}
   refine ⟨s1, spec, s', h1, hf, hid, h2, hpre, hpost, hr, hl, hw, ?_, ?_, by rw [hl]; exact hl2, fun o => by rw [hr]; exact hr2 o⟩
   · intro h; have := hl1.1 h; simp at this
   · intro o h; have := (hr1 o).1 h; simp at this
+
+/-! ## `would_be_executed` marks (dry runs only; repair of F20) -/
+
+theorem setupChain_wbe {s : Sess} {t : TaskSpec}
+    (h : setupChain P g cfg s t Generated.setupOrder = .wouldBeExecuted) : t.id ∈ s.wbeMarks := by
+  rw [setupChain_order] at h
+  have h1 : setupImpl P g cfg s t "skipping" ≠ .wouldBeExecuted := by
+    rw [setupImpl_skipping]; split <;> (try split) <;> (try split) <;> simp
+  have h2 : setupImpl P g cfg s t "persist" ≠ .wouldBeExecuted := by
+    rcases setupImpl_persist_cases P g cfg s t with e | e <;> rw [e] <;> simp
+  have h3 : setupImpl P g cfg s t "execute" = .wouldBeExecuted → t.id ∈ s.wbeMarks := by
+    intro e
+    by_cases hm : t.id ∈ s.wbeMarks
+    · exact hm
+    · exfalso
+      simp only [setupImpl] at e
+      simp [hm] at e
+      split at e <;> cases e
+  cases e1 : setupImpl P g cfg s t "skipping" <;> rw [e1] at h <;> simp only [] at h <;> (try (cases h)) <;> (try exact absurd e1 h1)
+  cases e2 : setupImpl P g cfg s t "persist" <;> rw [e2] at h <;> simp only [] at h <;> (try (cases h)) <;> (try exact absurd e2 h2)
+  exact h3 h
+
+/-- The phases end in "would be executed" only in a dry run or for a task carrying the mark. -/
+theorem runPhases_wbe {s : Sess} {t : TaskSpec} (h : (runPhases F P g cfg s t).1 = .wouldBeExecuted) :
+    cfg.dry = true ∨ t.id ∈ s.wbeMarks := by
+  by_cases hn : setupChain P g cfg s t Generated.setupOrder = .none
+  · by_cases hd : cfg.dry = true
+    · exact .inl hd
+    · exfalso
+      unfold runPhases at h
+      rw [hn] at h
+      simp only [hd, Bool.false_eq_true, if_false] at h
+      split at h
+      · cases h
+      · split at h <;> cases h
+  · rw [runPhases_of_raise rfl hn] at h
+    exact .inr (setupChain_wbe h)
+
+theorem processReport_wbeMarks {s : Sess} {t : TaskSpec} {r : Raised} (hr : r ≠ .wouldBeExecuted) :
+    (processReport P g cfg s t r).wbeMarks = s.wbeMarks := by
+  unfold processReport
+  cases r <;> simp only [] <;> (try split) <;> first | rfl | exact absurd rfl hr
+
+/-- A real (non-dry) build never attaches `would_be_executed` marks. -/
+theorem protocol_real_nowbe {s : Sess} {t : TaskSpec} (hd : cfg.dry = false) (hw : s.wbeMarks = []) :
+    (protocol F P g cfg s t).wbeMarks = [] := by
+  obtain ⟨_, _, f3, _⟩ := runPhases_fields F P g cfg s t
+  have hr : (runPhases F P g cfg s t).1 ≠ .wouldBeExecuted := by
+    intro e
+    rcases runPhases_wbe e with h | h
+    · rw [hd] at h; cases h
+    · rw [hw] at h; cases h
+  unfold protocol
+  simp only []
+  rw [processReport_wbeMarks hr, f3, hw]
+
+theorem Steps.real_nowbe {picks : List Nat} {s s' : Sess} (h : Steps F P g cfg s picks s') (hd : cfg.dry = false)
+    (hw : s.wbeMarks = []) : s'.wbeMarks = [] := by
+  induction h with
+  | nil => exact hw
+  | cons _ _ ih => exact ih (protocol_real_nowbe hd hw)
+
+/-- A task carrying the `would_be_executed` mark that no skip mark / failed ancestor stops is
+reported WOULD_BE_EXECUTED and passes the mark on — whether or not it is marked `persist`. -/
+theorem protocol_wbe_marked {s : Sess} {t : TaskSpec} (hns : ¬ SkipCond s t) (hnf : t.id ∉ s.failMarks)
+    (hw : t.id ∈ s.wbeMarks) :
+    protocol F P g cfg s t =
+      { s with reports := s.reports ++ [(t.id, Outcome.wouldBeExecuted)], wbeMarks := s.wbeMarks ++ taskDesc g t.id } := by
+  have hc : setupChain P g cfg s t Generated.setupOrder = .wouldBeExecuted := by
+    rw [setupChain_order, setupImpl_skipping_none.2 ⟨hns, hnf⟩]
+    have hnp : ¬ PersistCond P g s t := fun h => h.1.2 hw
+    simp only [setupImpl_persist_none hnp]
+    simp [setupImpl, hw]
+  unfold protocol
+  rw [runPhases_of_raise hc (by simp)]
+  simp [processReport, markAll]
 
 end Engine
 end Pytask
